@@ -33,3 +33,36 @@ func VerifSetRoundRobinCounter(lb LoadBalancer, v uint64) bool {
 }
 
 func verifSetCounter[T uint32 | uint64](p *T, v uint64) { *p = T(v) }
+
+// VerifEmit lets other packages of this module report hook points through the same sink.
+func VerifEmit(point string, args ...interface{}) { vhook(point, args...) }
+
+// VerifConnInfo describes a backend connection: remote (node) and local socket addresses.
+func VerifConnInfo(c *ClientConn) (remote, local string) {
+	if c == nil || c.conn == nil {
+		return "", ""
+	}
+	return c.conn.RemoteAddr().String(), c.conn.LocalAddr().String()
+}
+
+// VerifUnwrapRequest returns the client request behind a re-prepare wrapper (and whether it was wrapped).
+func VerifUnwrapRequest(r Request) (Request, bool) {
+	if p, ok := r.(*prepareRequest); ok {
+		return p.origRequest, true
+	}
+	return r, false
+}
+
+// VerifIsInternalRequest reports whether r is one of the proxy's own requests (handshake, heartbeat, system queries).
+func VerifIsInternalRequest(r Request) bool {
+	_, ok := r.(*internalRequest)
+	return ok
+}
+
+// VerifPoolEndpoint returns the endpoint key of a connection pool.
+func VerifPoolEndpoint(p interface{}) string {
+	if cp, ok := p.(*connPool); ok {
+		return cp.config.Endpoint.Key()
+	}
+	return ""
+}
